@@ -141,7 +141,7 @@ def CompileNeverPanics : Prop := ∀ p : Prog, verdictY p ≠ .crash
 
 /-- **ill-typed programs are rejected**: every program of the fragment (all expressions and statements,
     any nesting) that the Go rules reject and whose check sites are outside the classes that are still open
-    (F12-4 assignments and returns, F12-5, F12-6, F12-19, F12-25 nil-only operands) is rejected by yaegi's checks with an error -/
+    (F12-4 `var v I = a - a`, F12-5, F12-6, F12-19) is rejected by yaegi's checks with an error -/
 theorem rejects_illtyped_partial (p : Prog) (hd : DomP p = true) (h : verdictG p = .err) : verdictY p = .err := by
   rw [typing_agree p hd]; exact h
 
@@ -165,9 +165,14 @@ private def tN0 : Ty := .s (.named ⟨0, .int, [0]⟩)
 
 /-- the facts the extractor emits for the tree before the third round of repairs (ab398ff): every fact introduced or
     flipped by 5877dba … f150e30 and 6f2f5cf / e6c1f4a at its old value. The "before" half of the regression examples. -/
-def factsBeforeRound5 : TcFacts :=
+def factsBeforeRound7 : TcFacts :=
   { Expected.C12.tcFacts with
-    ops := { Expected.C12.opFacts with cmpChanExempt := .identical, shiftBoolGuard := false, shiftNegChecked := false },
+    ops := { Expected.C12.opFacts with convNilUntypedGuard := false, cmpNilNilRejected := false },
+    typeKindNilSafe := false, opResultChecked := false }
+def verdictBefore7 (p : Prog) : Verdict := (checkProg (rulesY factsBeforeRound7) p).verdict
+def factsBeforeRound5 : TcFacts :=
+  { factsBeforeRound7 with
+    ops := { factsBeforeRound7.ops with cmpChanExempt := .identical, shiftBoolGuard := false, shiftNegChecked := false },
     opTypeFromOperand := false, shiftUntypedCtx := false, indexZeroLenChecked := false, arrayLitSliceUnbounded := false,
     nilOperandsReported := false, convTypedNumericOk := false, callValueConvChecked := false }
 def verdictBefore5 (p : Prog) : Verdict := (checkProg (rulesY factsBeforeRound5) p).verdict
@@ -319,9 +324,34 @@ theorem rejects_illtyped_witness : ¬ RejectsIlltyped := fun h => by
   rw [same_reflect_type_witness.1] at this
   cases this
 
-/-- F12-4: `var a int; var s string; s = a - a` — the operator node takes the destination type -/
+/-- F12-4 (aa2ac2f, the assignment and return forms): `var a int; var s string; s = a - a`, `s = -a`, `s = a == a`,
+    `func f(a int) string { return -a }` — rejected (`operationResult`); accepted before, when the operator node took
+    the destination type unchecked -/
 def progPropagated : Prog := main [.declz tInt, .declz tStr, .assign 1 (.bin .sub (.var 0) (.var 0))]
-theorem propagation_witness : verdictY progPropagated = .ok ∧ verdictG progPropagated = .err ∧ DomP progPropagated = false := by
+def progPropagatedNeg : Prog := main [.declz tInt, .declz tStr, .assign 1 (.un .neg (.var 0))]
+def progPropagatedCmp : Prog := main [.declz tInt, .declz tStr, .assign 1 (.cmp .eq (.var 0) (.var 0))]
+def progPropagatedRet : Prog := ⟨[⟨⟨[.basic .int], [.basic .string]⟩, body [.ret (.cons (.un .neg (.var 0)) .nil)]⟩], .nil⟩
+theorem propagation_fixed :
+    verdictY progPropagated = .err ∧ verdictG progPropagated = .err ∧ DomP progPropagated = true ∧
+    verdictY progPropagatedNeg = .err ∧ verdictG progPropagatedNeg = .err ∧ DomP progPropagatedNeg = true ∧
+    verdictY progPropagatedCmp = .err ∧ verdictG progPropagatedCmp = .err ∧ DomP progPropagatedCmp = true ∧
+    verdictY progPropagatedRet = .err ∧ verdictG progPropagatedRet = .err ∧ DomP progPropagatedRet = true ∧
+    verdictBefore7 progPropagated = .ok ∧ verdictBefore7 progPropagatedNeg = .ok ∧ verdictBefore7 progPropagatedCmp = .ok ∧
+    verdictBefore7 progPropagatedRet = .ok := by
+  unfold verdictY DomP; rw [tcfacts_tie]; decide
+/-- F12-4, what is left: `var a int; var v I1 = a - a` (I1 = interface{ M0() }, int has no method) — in a declaration of
+    interface type the arithmetic node gets the interface type from nodeType and nothing checks that int implements it -/
+def progPropagatedIface : Prog := main [.declz tInt, .decl (.iface 1 [0]) (.bin .sub (.var 0) (.var 0))]
+theorem propagation_witness :
+    verdictY progPropagatedIface = .ok ∧ verdictG progPropagatedIface = .err ∧ DomP progPropagatedIface = false := by
+  unfold verdictY DomP; rw [tcfacts_tie]; decide
+
+/-- …and the valid forms stay accepted: a comparison assigned to a variable of a defined boolean type, an operation
+    assigned to its own type or to an interface -/
+def progOpAssignOk : Prog := main [.declz tInt, .declz (.s (.named ⟨4, .bool, []⟩)), .declz (.iface 0 []),
+  .assign 1 (.cmp .lt (.var 0) (.var 0)), .assign 0 (.bin .sub (.var 0) (.lit .int 1 false)), .assign 2 (.un .neg (.var 0)),
+  .assign 1 (.un .not (.cmp .eq (.var 0) (.var 0)))]
+theorem operation_assignment_accepted : verdictY progOpAssignOk = .ok ∧ verdictG progOpAssignOk = .ok ∧ DomP progOpAssignOk = true := by
   unfold verdictY DomP; rw [tcfacts_tie]; decide
 
 /-- F12-6: `var e interface{}; var i int = e` -/
@@ -329,17 +359,22 @@ def progIface : Prog := main [.declz (.iface 0 []), .decl tInt (.var 0)]
 theorem interface_to_concrete_witness : verdictY progIface = .ok ∧ verdictG progIface = .err ∧ DomP progIface = false := by
   unfold verdictY DomP; rw [tcfacts_tie]; decide
 
-/-- F12-25 (the part of F12-17 that 52cb9ff does not cover): `x := nil == nil` — no operand gives nil a type and
-    `convertUntyped` asks the nil reflect.Type for its kind: a Go panic escapes the compiler; so do `<-nil`, `nil[0]` -/
+/-- F12-25 (2992617): `x := nil == nil`, `x := 1 + nil`, `x := <-nil`, `x := nil[0]`, `nil <- 1` — no operand gives nil a
+    type: errors on both sides; Go panics in the compiler before -/
 def progNilEq : Prog := main [.define (.cmp .eq .nil .nil)]
+def progNilAdd : Prog := main [.define (.bin .add (.lit .int 1 false) .nil)]
 def progRecvNil : Prog := main [.define (.recv .nil)]
 def progIndexNil : Prog := main [.define (.index .nil (.lit .int 0 false))]
-theorem nil_only_operand_witness :
-    verdictY progNilEq = .crash ∧ verdictG progNilEq = .err ∧ DomP progNilEq = false ∧
-    verdictY progRecvNil = .crash ∧ verdictG progRecvNil = .err ∧ DomP progRecvNil = false ∧
-    verdictY progIndexNil = .crash ∧ verdictG progIndexNil = .err ∧ DomP progIndexNil = false := by
+def progSendNil : Prog := main [.send .nil (.lit .int 1 false)]
+theorem nil_only_operand_fixed :
+    verdictY progNilEq = .err ∧ verdictG progNilEq = .err ∧ DomP progNilEq = true ∧
+    verdictY progNilAdd = .err ∧ verdictG progNilAdd = .err ∧ DomP progNilAdd = true ∧
+    verdictY progRecvNil = .err ∧ verdictG progRecvNil = .err ∧ DomP progRecvNil = true ∧
+    verdictY progIndexNil = .err ∧ verdictG progIndexNil = .err ∧ DomP progIndexNil = true ∧
+    verdictY progSendNil = .err ∧ verdictG progSendNil = .err ∧ DomP progSendNil = true ∧
+    verdictBefore7 progNilEq = .crash ∧ verdictBefore7 progNilAdd = .crash ∧ verdictBefore7 progRecvNil = .crash ∧
+    verdictBefore7 progIndexNil = .crash ∧ verdictBefore7 progSendNil = .crash := by
   unfold verdictY DomP; rw [tcfacts_tie]; decide
-theorem compile_never_panics_witness : ¬ CompileNeverPanics := fun h => h progNilEq nil_only_operand_witness.1
 
 /-- F12-19: `type N4 bool; var a int; var c N4; var z bool = (a < a) && c` — the comparison has type bool, so has the
     conjunction (Go: N4, not assignable to bool) -/
@@ -528,20 +563,20 @@ theorem call_value_conversion_correct (rets : List STy) :
   rw [tcfacts_tie]; exact callValue_conv_agree rets
 
 /-- F12-7: a send statement is decided as the specification says (direction, then assignability of the value to the
-    element type) for every channel operand but `nil` and every value on which the assignment check itself agrees -/
-theorem send_correct (c v : Opnd) (hn : c.ty ≠ .nil)
+    element type) for EVERY channel operand (`nil` included since 2992617) and every value on which the assignment check itself agrees -/
+theorem send_correct (c v : Opnd)
     (ha : ∀ d t, c.ty = .chan d t →
       assignmentY Generated.C12.opFacts v (.s t) = (if Spec.assignableG v (.s t) then .ok () else .err)) :
     sendY Generated.C12.tcFacts c v = Spec.sendG c v := by
-  rw [tcfacts_tie]; exact send_agree c v hn (by rw [opfacts_tie] at ha; exact ha)
+  rw [tcfacts_tie]; exact send_agree c v (by rw [opfacts_tie] at ha; exact ha)
 
 /-- F12-7, typed non-constant values: the only sends still decided differently are those of the open classes of
     assignments (an interface value for a concrete element type, F12-6; a reflect collision, F12-5) -/
-theorem send_typed_correct (c v : Opnd) (hn : c.ty ≠ .nil) (hv : v.rv = .none) (hvt : v.ty.isUntyped = false)
+theorem send_typed_correct (c v : Opnd) (hv : v.rv = .none) (hvt : v.ty.isUntyped = false)
     (h1 : ∀ d t, c.ty = .chan d t → v.ty.isIface = false)
     (h2 : ∀ d t, c.ty = .chan d t → reflectCollision v.ty (.s t) = false) :
     sendY Generated.C12.tcFacts c v = Spec.sendG c v := by
-  rw [tcfacts_tie]; exact send_typed_agree c v hn hv hvt h1 h2
+  rw [tcfacts_tie]; exact send_typed_agree c v hv hvt h1 h2
 
 /-- F12-3: `&&` / `||` on typed non-constant operands of non-interface types (in any propagation zone) -/
 theorem logical_typed_correct (op : BinOp) (hop : op.propagates = false) (z : Option Ty) (x y : Opnd)
@@ -612,5 +647,23 @@ theorem array_literal_zero_length_fixed :
     (Spec.arrayLitG (some 0) [.keyed 0] 0 []).verdict = .err ∧
     (arrayLitY factsBeforeRound5 true 0 [.keyed 0] 0 0 []).verdict = .ok := by
   rw [tcfacts_tie]; decide
+
+/-! #### round 7 -/
+
+/-- F12-4 (aa2ac2f): the result of a non-constant operation (not a comparison) assigned by `v = <op>` or returned where a
+    non-interface type is expected is checked as Go's assignability requires, outside the open classes of assignments
+    (F12-5 reflect collision, F12-6 interface value for a concrete type) -/
+theorem operation_result_correct (x : Opnd) (dst : Ty) (hx : x.rv = .none) (hxt : x.ty.isUntyped = false)
+    (hdt : dst.isUntyped = false) (hdi : dst.isIface = false)
+    (h1 : x.ty.isIface = false) (h2 : reflectCollision x.ty dst = false) :
+    opResultY Generated.C12.tcFacts x dst = (if Spec.assignableG x dst then .ok () else .err) := by
+  rw [tcfacts_tie]; exact opResult_typed_agree x dst hx hxt hdt hdi h1 h2
+
+/-- F12-25 (2992617): receive from, send on, index of `nil`: errors on both sides, no Go panic -/
+theorem nil_operand_errors_correct (v i : Opnd) :
+    recvY Generated.C12.tcFacts ⟨.nil, .none⟩ = .err ∧ Spec.recvG ⟨.nil, .none⟩ = .err ∧
+    sendY Generated.C12.tcFacts ⟨.nil, .none⟩ v = .err ∧ Spec.sendG ⟨.nil, .none⟩ v = .err ∧
+    indexY Generated.C12.tcFacts ⟨.nil, .none⟩ i = .err ∧ Spec.indexG ⟨.nil, .none⟩ i = .err := by
+  rw [tcfacts_tie]; exact nil_operand_errors v i
 
 end YaegiVerif.Props.C12
